@@ -21,8 +21,9 @@ REPO = os.environ.get("VERIF_REPO", "/repo")
 BUILD = os.path.join(VERIF, "build")
 SPEC = os.path.join(VERIF, "spec")
 HARNESS = os.path.join(VERIF, "harness")
-OUT = os.path.join(VERIF, "out")
-EVID = os.path.join(VERIF, "evidence")
+ALT = os.path.realpath(REPO) != "/repo"      # development runs against a scratch copy leave evidence/ and out/ alone
+OUT = os.path.join(VERIF, "out") if not ALT else os.path.join(BUILD, "alt-out")
+EVID = os.path.join(VERIF, "evidence") if not ALT else os.path.join(BUILD, "alt-evidence")
 JARS = "/opt/veriftools/tla/tla2tools.jar:/opt/veriftools/tla/CommunityModules-deps.jar"
 NCPU = os.cpu_count() or 4
 GUARD = "ASL_VERIF"
@@ -168,7 +169,8 @@ def build_harness(lib, name, srcs, extra=(), std=None):
         for f in os.listdir(lib.dir):
             if f.startswith("h-%s-" % name):
                 os.unlink(os.path.join(lib.dir, f))
-        flags = [f for f in lib.flags if not f.startswith("-std")] + [std or STD]
+        # harnesses are compiled at -O0: clang 14 needs ~60 s for the big replay functions at -O1 under ASan (1.9 s at -O0)
+        flags = [f for f in lib.flags if not f.startswith("-std") and f != "-O1"] + ["-O0", std or STD]
         cmd = [CXX] + flags + ["-I" + cdir] + list(extra) + paths + [lib.lib, "-lpthread", "-ldl", "-o", exe + ".tmp"]
         r = sh(cmd)
         if r.returncode != 0:
@@ -239,7 +241,7 @@ class TlcResult:
                 return "deadlock"
             if "Assumption" in ln and "is false" in ln:
                 return "assumption"
-            if "The postcondition" in ln or "Postcondition" in ln and "violated" in ln:
+            if "Postcondition" in ln and ("is false" in ln or "violated" in ln):
                 return "postcondition"
         return None
 
@@ -509,6 +511,56 @@ class Ctx:
         log(self.engines[-1])
         return merged
 
+    # -- V: record executions of the implementation ---------------------------------------------
+    def record(self, exe, count, events, label, extra_args=(), timeout=900, env=None, avoid=True):
+        """Run a recorder (harness/common/vrec.h conventions) `count` times with seeds derived from VERIF_SEED.
+        Returns the list of ndjson files.  A recorder that dies (sanitizer report, signal, time limit, own
+        consistency check) is a violation; its replay file names the recorder and the seed."""
+        slabel = re.sub(r"[^A-Za-z0-9_.-]", "_", label)
+        jobs = []
+        for k in range(count):
+            seed = derive_seed(self.seed, label, k)
+            out = os.path.join(self.tmp, "%s-%d.ndjson" % (slabel, k))
+            cmd = [exe, "--seed", str(seed), "--events", str(events), "--out", out] + list(extra_args)
+            if avoid and self.known:
+                cmd += ["--avoid", ",".join(sorted(self.known))]
+            jobs.append((seed, out, cmd))
+
+        def one(j):
+            seed, out, cmd = j
+            p = subprocess.run(["timeout", "-k", "5", str(int(timeout))] + cmd, env=run_env(env), stdout=subprocess.PIPE,
+                               stderr=subprocess.PIPE, text=True, errors="replace")
+            return j, p
+
+        files = []
+        with cf.ThreadPoolExecutor(NCPU) as ex:
+            for (seed, out, cmd), p in ex.map(one, jobs):
+                if p.returncode != 0:
+                    info = {"recorder": os.path.basename(exe).split("-")[1] if "-" in os.path.basename(exe) else os.path.basename(exe),
+                            "seed": seed, "events": events, "args": list(extra_args), "exit": p.returncode,
+                            "avoid": sorted(self.known) if avoid else []}
+                    path = os.path.join(self.replay_dir, "rec-%s-%d.json" % (slabel, seed))
+                    with open(path, "w") as f:
+                        json.dump(info, f)
+                        f.write("\n")
+                    last = _tail_lines(out, 3)
+                    self.violation("%s: recorder died with exit %s (seed %d) after events:\n%s\n%s" %
+                                   (label, p.returncode, seed, last, (p.stderr or "")[-3500:]), path=path)
+                    continue
+                files.append(out)
+        nev = nex = 0
+        for f in files:
+            with open(f, "rb") as fh:
+                for ln in fh:
+                    nev += 1
+                    if ln.startswith(b'{"op":"reset"') or ln.startswith(b'{"e":"Reset"') or ln.startswith(b'{"e":"reset"'):
+                        nex += 1
+        self.evaluations += nev
+        self._rec_exec = getattr(self, "_rec_exec", 0) + nex
+        self.engines.append("%s: %d recorded runs, %d executions, %d events" % (label, len(files), nex, nev))
+        log(self.engines[-1])
+        return files
+
     # -- V: validate recorded traces ----------------------------------------------------------
     def validate_traces(self, trace_spec, cfg, files, label="trace", timeout=900, dfs=False, xss=None, xmx="4g",
                         parallel=None, nevents=None):
@@ -543,7 +595,25 @@ class Ctx:
             shutil.copyfile(f, keep)
             self.violation("%s: recorded implementation trace rejected by %s near event %s (%s)\n%s" %
                            (label, trace_spec, line, v, _nth_line(f, line)), path=keep)
+        if accepted == len(files):
+            self.traces += getattr(self, "_rec_exec", 0)
+            self._rec_exec = 0
+        else:
+            self.traces += accepted
+        self.engines.append("%s: %d/%d recorded files accepted by %s" % (label, accepted, len(files), trace_spec))
+        log(self.engines[-1])
         return accepted
+
+
+def _tail_lines(path, n):
+    try:
+        with open(path, "rb") as f:
+            f.seek(0, 2)
+            size = f.tell()
+            f.seek(max(0, size - 4000))
+            return b"\n".join(f.read().splitlines()[-n:]).decode("latin1")[:1500]
+    except Exception:
+        return ""
 
 
 def _nth_line(path, n):
@@ -560,3 +630,34 @@ def _nth_line(path, n):
 def derive_seed(seed, *parts):
     h = hashlib.sha1(("%s|%s" % (seed, "|".join(map(str, parts)))).encode()).hexdigest()
     return int(h[:8], 16) & 0x7FFFFFFF
+
+
+def replay_recorded(path, lib, hname, hsrcs, trace_spec, cfg, extra_args=()):
+    """--replay for V-direction violations: either a stored (rejected) trace, which is validated again, or a
+    recorder crash descriptor {recorder, seed, events, args}, which is re-recorded and validated."""
+    tmp = os.path.join(BUILD, "tmp", "replay-%d" % os.getpid())
+    os.makedirs(tmp, exist_ok=True)
+    try:
+        trace = path
+        if not path.endswith(".ndjson"):
+            info = json.load(open(path))
+            exe = build_harness(lib, hname, hsrcs)
+            trace = os.path.join(tmp, "t.ndjson")
+            cmd = [exe, "--seed", str(info["seed"]), "--events", str(info["events"]), "--out", trace] + list(info.get("args", []))
+            if info.get("avoid"):
+                cmd += ["--avoid", ",".join(info["avoid"])]
+            p = subprocess.run(["timeout", "900"] + cmd, env=run_env())
+            if p.returncode != 0:
+                print("recorder failed again with exit %d (seed %s): violation reproduced" % (p.returncode, info["seed"]))
+                return 1
+        r = tlc(trace_spec, cfg, workers=1, timeout=1800, env={"TRACE": trace})
+        if r.rc == 0:
+            print("trace accepted by %s" % trace_spec)
+            return 0
+        if r.violated() is None:
+            print(r.tail(40))
+            return 2
+        print("trace rejected by %s near event %d: %s" % (trace_spec, r.depth, _nth_line(trace, r.depth)))
+        return 1
+    finally:
+        shutil.rmtree(tmp, ignore_errors=True)
